@@ -7,6 +7,7 @@ package bubble
 
 import (
 	"fmt"
+	"runtime"
 	"strings"
 	"sync/atomic"
 	"testing"
@@ -27,6 +28,22 @@ type Actor struct {
 	Site   int          // hook site the actor is parked at
 	fail   atomic.Pointer[Failure]
 	closed bool
+	gid    uint64 // id of the actor's goroutine
+}
+
+// goid returns the id of the calling goroutine (from the first line of its
+// stack trace: "goroutine N [...").
+func goid() uint64 {
+	var buf [40]byte
+	n := runtime.Stack(buf[:], false)
+	var id uint64
+	for _, c := range buf[len("goroutine "):n] {
+		if c < '0' || c > '9' {
+			break
+		}
+		id = id*10 + uint64(c-'0')
+	}
+	return id
 }
 
 // Failure is a violation raised inside an actor (actors must not panic).
@@ -62,7 +79,10 @@ type B struct {
 func (b *B) NewActor(name string) *Actor {
 	a := &Actor{Name: name, gate: make(chan func()), resume: make(chan struct{})}
 	b.actors = append(b.actors, a)
+	ready := make(chan struct{})
 	go func() {
+		a.gid = goid()
+		close(ready)
 		defer func() {
 			if r := recover(); r != nil {
 				where, harness := sim.PanicWhere()
@@ -80,6 +100,7 @@ func (b *B) NewActor(name string) *Actor {
 			a.state.Store(0)
 		}
 	}()
+	<-ready
 	return a
 }
 
@@ -96,6 +117,13 @@ func (b *B) Step(a *Actor, f func()) {
 // Yield parks the calling actor at a hook inside its current step until the
 // controller resumes it (called from hooks in the code under test).
 func (a *Actor) Yield(site int) {
+	if goid() != a.gid {
+		// The hook is being passed by some other goroutine - one that the code
+		// under test started on its own (a version of it that does part of a
+		// call's work in the background): that goroutine is not an actor, it
+		// runs freely like the rest of the code under test.
+		return
+	}
 	a.Site = site
 	a.state.Store(3)
 	<-a.resume
